@@ -304,3 +304,82 @@ if __name__ == "__main__":
         print(it["status"], it["name"], it["detail"][:300])
     for it in state_frame_items("quick"):
         print(it["status"], it["name"], it["detail"][:300])
+
+
+# assigns clauses (C13 / C14): the attributes of `self` a Network operation may write.  Everything else - in particular the rate / ODE
+# modifier tables, the heating / cooling lists, the allowed and required species - is framed out: it has the value it had at entry.
+ASSIGNS = {
+    "remove_reaction": {"reaction_list", "_reactants", "_products"},
+    "_add_reaction": {"reaction_list", "_skipped_reactions", "_reactants", "_products"},
+    "find_duplicate_reaction": set(),
+    "find_source_sink": set(),
+    "where_reaction": set(),
+    "where_species": set(),
+}
+PURE_SELF_CALLS = {"_add_reaction": {"_reaction_factory"}, "where_species": set(), "remove_reaction": set()}
+# the generator object keeps nothing from one rendering to the next: what a template receives is prepared from this call's network
+LOADER_ASSIGNS = {"render": set(), "_render": set(), "_prepare_ode_content": set(), "_prepare_renorm_content": set(), "_assign_rates": set()}
+LOADER_PURE = {"render": {"_prepare_ode_content", "_prepare_renorm_content", "_render"}, "_prepare_ode_content": {"_assign_rates"}}
+
+
+def _self_root(e):
+    """attribute name X when the expression is rooted at self.X (self.X, self.X[..], self.X.y, ...)"""
+    while isinstance(e, (ast.Attribute, ast.Subscript)):
+        if isinstance(e, ast.Attribute) and isinstance(e.value, ast.Name) and e.value.id == "self":
+            return e.attr
+        e = e.value
+    return None
+
+
+def assigns_items(tier):
+    """A1: each listed Network operation stores to / mutates only the attributes of its assigns clause; it calls no other method of
+    `self` (a callee could write anything) except the ones listed as pure, and never uses setattr / __dict__ on self."""
+    return _assigns("naunet/network.py", "Network", ASSIGNS, PURE_SELF_CALLS)
+
+
+def loader_assigns_items(tier):
+    """A2 (C01-C03, C13, C16, C17): TemplateLoader.render and the content builders write no attribute of the loader, so a second
+    rendering with the same loader object is prepared from its own network, not from anything an earlier rendering left behind."""
+    return _assigns("naunet/templateloader.py", "TemplateLoader", LOADER_ASSIGNS, LOADER_PURE)
+
+
+def _assigns(relfile, clsname, table, pure):
+    out = []
+    tree = next(t for rel, t in _files() if rel == relfile)
+    cls = next(c for c in ast.walk(tree) if isinstance(c, ast.ClassDef) and c.name == clsname)
+    PURE_SELF_CALLS = pure
+    for fname, allowed in sorted(table.items()):
+        fns = [m for m in cls.body if isinstance(m, ast.FunctionDef) and m.name == fname and not any("setter" in ast.unparse(d) for d in m.decorator_list)]
+        if not fns:
+            out.append(_item(f"frame/assigns/{clsname}.{fname}/function-found", False, f"not found in {clsname}"))
+            continue
+        fn = fns[0]
+        bad = []
+        for n in ast.walk(fn):
+            tgts = []
+            if isinstance(n, ast.Assign):
+                tgts = list(n.targets)
+            elif isinstance(n, (ast.AugAssign, ast.AnnAssign)):
+                tgts = [n.target]
+            elif isinstance(n, ast.Delete):
+                tgts = list(n.targets)
+            for t in tgts:
+                for el in (t.elts if isinstance(t, (ast.Tuple, ast.List)) else [t]):
+                    r = _self_root(el)
+                    if r is not None and r not in allowed:
+                        bad.append(f"line {n.lineno}: writes self.{r}")
+            if isinstance(n, ast.Call):
+                f = n.func
+                if isinstance(f, ast.Attribute) and f.attr in MUTATORS:
+                    r = _self_root(f.value)
+                    if r is not None and r not in allowed:
+                        bad.append(f"line {n.lineno}: self.{r}...{f.attr}()")
+                if isinstance(f, ast.Attribute) and isinstance(f.value, ast.Name) and f.value.id == "self" and f.attr not in PURE_SELF_CALLS.get(fname, set()) and not f.attr[:1].isupper():
+                    # a method call on self (properties are attribute reads and are not calls)
+                    bad.append(f"line {n.lineno}: calls self.{f.attr}() (not in the operation's list of pure helpers)")
+                if isinstance(f, ast.Name) and f.id in ("setattr", "delattr", "vars") and n.args and isinstance(n.args[0], ast.Name) and n.args[0].id == "self":
+                    bad.append(f"line {n.lineno}: {f.id}(self, ..)")
+            if isinstance(n, ast.Attribute) and n.attr == "__dict__" and isinstance(n.value, ast.Name) and n.value.id == "self":
+                bad.append(f"line {n.lineno}: self.__dict__")
+        out.append(_item(f"frame/assigns/{clsname}.{fname}/writes-only-{'+'.join(sorted(allowed)) or 'nothing'}", not bad, "; ".join(bad)[:500] or "assigns clause respected"))
+    return out
